@@ -59,8 +59,9 @@ mod k {
     fn m_wide(input: &[u8; 64]) -> Scalar { let mut b = [0u8; 32]; let mut i = 0; while i < 32 { b[i] = input[i] ^ input[32 + i].rotate_left(1); i += 1; } b[31] &= 0x0f; vh::scalar_raw(b) }
     fn m_canon(bytes: [u8; 32]) -> CtOption<Scalar> { CtOption::new(vh::scalar_raw(bytes), ((bytes[31] & 0xf0 == 0) as u8).into()) }
     fn m_mod_order(bytes: [u8; 32]) -> Scalar { let mut b = bytes; b[31] &= 0x0f; b[0] ^= 0x33; vh::scalar_raw(b) }
-    fn m_smul<'a: 'a, 'b: 'b>(a: &'a Scalar, b: &'b Scalar) -> Scalar { let mut o = [0u8; 32]; let mut i = 0; while i < 32 { o[i] = a.as_bytes()[i].rotate_left(3) ^ b.as_bytes()[i]; i += 1; } vh::scalar_raw(o) }
-    fn m_sadd<'a: 'a, 'b: 'b>(a: &'a Scalar, b: &'b Scalar) -> Scalar { let mut o = [0u8; 32]; let mut i = 0; while i < 32 { o[i] = a.as_bytes()[i] ^ b.as_bytes()[i].rotate_left(1) ^ 0x11; i += 1; } vh::scalar_raw(o) }
+    // the scalar-ring models are SYMMETRIC in their operands (the ring is commutative: code may legitimately swap operands), byte-wise and mixing
+    fn m_smul<'a: 'a, 'b: 'b>(a: &'a Scalar, b: &'b Scalar) -> Scalar { let mut o = [0u8; 32]; let mut i = 0; while i < 32 { let (x, y) = (a.as_bytes()[i], b.as_bytes()[i]); o[i] = x.wrapping_mul(y).wrapping_add((x ^ y).rotate_left(3)); i += 1; } vh::scalar_raw(o) }
+    fn m_sadd<'a: 'a, 'b: 'b>(a: &'a Scalar, b: &'b Scalar) -> Scalar { let mut o = [0u8; 32]; let mut i = 0; while i < 32 { o[i] = a.as_bytes()[i].wrapping_add(b.as_bytes()[i]) ^ 0x11; i += 1; } vh::scalar_raw(o) }
 
     fn split(sb: &[u8; 64]) -> ([u8; 32], [u8; 32]) { let mut r = [0u8; 32]; let mut s = [0u8; 32]; let mut i = 0; while i < 32 { r[i] = sb[i]; s[i] = sb[32 + i]; i += 1; } (r, s) }
     const DOM: &[u8] = b"SigEd25519 no Ed25519 collisions";
